@@ -334,12 +334,51 @@ fn element_mut_replace_h<T: 'static>() {
 }
 
 
+/// splice whose result exceeds a fixed capacity: the call cannot succeed (the backend refuses to grow), and at
+/// the moment it refuses the vector is valid (C11 "splice beyond it leaves them valid"): the ghost backend checks
+/// the panic-view invariant at the refusal
+fn splice_fixed_overflow_h<T: 'static>(typed: bool, mk: fn() -> T) {
+    ghost_init();
+    let (len, cap) = sym_state();
+    let mut v = unsafe { mk_vec::<dyn None, T>(0, len, cap, true, true) };
+    reg(&v, 0);
+    let esz = size_of::<T>();
+    let has_w = len > 0;
+    let w = if has_w { witness_slot(TW, 0, len) } else { 0 };
+    let (start, end, f, b) = sym_range(len);
+    let k: usize = kani::any();
+    kani::assume(k <= KMAX && len - (end - start) + k > cap);
+    tok_init(TV, esz);
+    let mut ext = MaybeUninit::<T>::uninit();
+    let xp = ext.as_mut_ptr() as *mut u8;
+    if !typed {
+        let repl = RawRepl { left: k, report: k, p: xp, esz, tid: TypeId::of::<T>() };
+        let mut s = v.splice(start..end, repl);
+        advance(s.0.iter_mut(), start, end, f, b, w, has_w);
+        core::mem::drop(s);
+    } else {
+        let p = AnyVecRawPtr::<T, GhostB>::from(NonNull::from(&mut v.raw));
+        let repl = TypedRepl::<T> { left: k, report: k, mk };
+        let mut s = crate::ops::Iter(crate::ops::splice::Splice::new(p, start, end, repl));
+        advance(s.0.iter_mut(), start, end, f, b, w, has_w);
+        core::mem::drop(s);
+    }
+    kani::cover!(true, "RETURNED");
+}
+
+
 /// the public typed API (`AnyVecTyped::{drain,splice}`): range conversion + adapter, one item taken
 /// from the front (returned by value as T), then the adapter is dropped
 fn typed_api_h<T: 'static>(splice: bool, mk: fn() -> T) {
+    typed_api_hf::<T>(splice, false, mk)
+}
+
+/// `fixed`: on fixed-capacity storage, for every state in which the result fits the capacity (C11: "every
+/// operation whose result fits that capacity ... behaves exactly as on the heap backend")
+fn typed_api_hf<T: 'static>(splice: bool, fixed: bool, mk: fn() -> T) {
     ghost_init();
     let (len, cap) = sym_state();
-    let mut v = unsafe { mk_vec::<dyn None, T>(0, len, cap, false, false) };
+    let mut v = unsafe { mk_vec::<dyn None, T>(0, len, cap, fixed, false) };
     reg(&v, 0);
     let esz = size_of::<T>();
     let has_w = len > 0;
@@ -351,6 +390,7 @@ fn typed_api_h<T: 'static>(splice: bool, mk: fn() -> T) {
     let f = if take && start < end { 1 } else { 0 };
     tok_init(TV, esz);
     let k = if splice { 1 } else { 0 };
+    if fixed { kani::assume(len - (end - start) + k <= cap); }
     {
         let mut t = v.downcast_mut::<T>().unwrap();
         if splice {
@@ -365,6 +405,9 @@ fn typed_api_h<T: 'static>(splice: bool, mk: fn() -> T) {
     }
     let len2 = v.len();
     kani::assert(len2 == post::splice_len(len, start, end, k), "typed drain/splice API: len' as Vec");
+    if post::splice_len(len, start, end, k) <= cap {
+        kani::assert(g().v[0].cap_changes == 0 && v.capacity() == cap, "typed drain/splice API: capacity untouched when the result fits (also on fixed-capacity storage)");
+    }
     kani::assert(g().out_count == f && g().total_destroyed == 0, "typed drain/splice API: exactly the taken item is moved out (no destructor: type without drop glue)");
     if esz != 0 && has_w {
         let kind = post::splice_old_kind(len, start, end, f, 0, w);
